@@ -131,6 +131,8 @@ theorem scalarTypes_eq (c : Cfg) (doc : TsDoc) :
 def ScalarsConfigured (c : Cfg) (M : TsDoc) : Prop :=
   ∀ td ∈ typeDefsOf (docSdl M), directiveScalar? td = none ∨ (c.optionScalar? td.name).isSome = true
 
+instance (c : Cfg) (M : TsDoc) : Decidable (ScalarsConfigured c M) := by unfold ScalarsConfigured; infer_instance
+
 theorem entry_of_configured {c : Cfg} {td : TypeDef}
     (h : directiveScalar? td = none ∨ (c.optionScalar? td.name).isSome = true) : entry c td = c.optionScalar? td.name := by
   unfold entry
@@ -345,9 +347,15 @@ theorem bag_agree {c : Cfg} {M : TsDoc} (h : DeclsOk c M) (id : String) :
   rw [key, key]
   simp only [scalar_names_agree h]
 
+theorem ctx_local (c : Cfg) (doc : TsDoc) (t : Target) (n : Name) :
+    (Ctx.new c doc t).local n = localName (bag (scalarTypes c doc)) n := rfl
+theorem ctx_scalarTypes (c : Cfg) (doc : TsDoc) (t : Target) : (Ctx.new c doc t).scalarTypes = scalarTypes c doc := rfl
+theorem ctx_cfg (c : Cfg) (doc : TsDoc) (t : Target) : (Ctx.new c doc t).cfg = c := rfl
+theorem ctx_target (c : Cfg) (doc : TsDoc) (t : Target) : (Ctx.new c doc t).target = t := rfl
+
 theorem local_agree {c : Cfg} {M : TsDoc} (h : DeclsOk c M) (t₁ t₂ : Target) (n : Name) :
     (Ctx.new c (docSdl M) t₁).local n = (Ctx.new c (docJson M) t₂).local n := by
-  show localName (bag (scalarTypes c (docSdl M))) n = localName (bag (scalarTypes c (docJson M))) n
+  rw [ctx_local, ctx_local]
   unfold localName
   rw [bag_agree h n]
 
@@ -428,9 +436,7 @@ theorem objectImplementers_docJson (M : TsDoc) (i : Name) :
 
 theorem implQ_conv (i : Name) (o : TypeDef) :
     (o.kind == .object && o.implements.any (·.1 == i)) = implP i (convTypeDef o) := by
-  have := implQ_tv i o
-  unfold implQ at this
-  exact this
+  cases h : o.kind <;> simp [implP, convTypeDef, h, any_fst_eq, typeKind_beq]
 
 theorem objectImplementers_docSdl (M : TsDoc) (i : Name) :
     (Gql.Schema.mk (docSdl M)).objectImplementers i = ((userTypes M).filter (implP i)).map (·.name) := by
@@ -468,13 +474,13 @@ theorem body_scalar_eq {x y : Ctx} (td : TypeDef) (hc : x.cfg = y.cfg) (ht : x.t
   cases hx : x.scalarTypes.find? (·.1 == td.name) <;> cases hy : y.scalarTypes.find? (·.1 == td.name) <;>
     simp_all
 
+theorem ctx_schema (c : Cfg) (doc : TsDoc) (t : Target) : (Ctx.new c doc t).schema = ⟨doc⟩ := rfl
+
 theorem interfaceBody_routes {c : Cfg} {M : TsDoc} (h : DeclsOk c M) (t : Target) (td : TypeDef) :
     interfaceBody (Ctx.new c (docSdl M) t) td = interfaceBody (Ctx.new c (docJson M) t) (twin td) := by
   unfold interfaceBody
-  rw [leaf_agree h t t, twin_name]
-  show membersBodyL _ ((Gql.Schema.mk (docSdl M)).objectImplementers td.name)
-    = membersBodyL _ ((Gql.Schema.mk (docJson M)).objectImplementers td.name)
-  rw [objectImplementers_docs M h.valid.resolved.typeNames td.name]
+  rw [leaf_agree h t t, twin_name, ctx_schema, ctx_schema,
+    objectImplementers_docs M h.valid.resolved.typeNames td.name]
 
 /-- **a definition and its twin are printed alike** in every namespace -/
 theorem body_routes {c : Cfg} {M : TsDoc} (h : DeclsOk c M) (t : Target) (td : TypeDef) :
@@ -485,7 +491,10 @@ theorem body_routes {c : Cfg} {M : TsDoc} (h : DeclsOk c M) (t : Target) (td : T
   cases hk : td.kind <;> simp only
   · -- scalar
     rw [twin_name]
-    exact body_scalar_eq td rfl rfl (scalar_find_agree h td.name)
+    have hfind := scalar_find_agree h td.name
+    simp only [ctx_scalarTypes, ctx_cfg, ctx_target]
+    cases hx : (scalarTypes c (docSdl M)).find? (·.1 == td.name) <;>
+      cases hy : (scalarTypes c (docJson M)).find? (·.1 == td.name) <;> simp_all
   · -- object
     simp only [objectBody, hleaf, objectBodyL_twin _ td hk]; rfl
   · -- interface
@@ -505,6 +514,13 @@ theorem printType_routes {c : Cfg} {M : TsDoc} (h : DeclsOk c M) (t : Target) (t
   unfold printType
   rw [body_routes h t td, twin_desc, twin_name, local_agree h t t]
 
+/-- the body of a namespace, over any list of definitions of the SDL document and the list of their twins -/
+theorem namespaceBody_routes {c : Cfg} {M : TsDoc} (h : DeclsOk c M) (t : Target) : ∀ (l : List TypeDef),
+    namespaceBody (Ctx.new c (docSdl M) t) l = namespaceBody (Ctx.new c (docJson M) t) (l.map twin)
+  | [] => rfl
+  | td :: r => by
+    simp only [List.map_cons, namespaceBody, printType_routes h t td, namespaceBody_routes h t r]
+
 theorem representative_routes {c : Cfg} {M : TsDoc} (h : DeclsOk c M) (td : TypeDef) :
     representative (Ctx.new c (docSdl M) .operationOutput) td
       = representative (Ctx.new c (docJson M) .operationOutput) (twin td) := by
@@ -516,6 +532,82 @@ theorem representative_routes {c : Cfg} {M : TsDoc} (h : DeclsOk c M) (td : Type
     rfl
   · have hb : (td.kind == TypeKind.enum) = false := by rw [typeKind_beq]; simpa using hk
     simp only [hb, Bool.false_and, Bool.false_eq_true, if_false]
-    rfl
+
+/-! ### the file is produced on one route iff it is produced on the other -/
+
+/-- the computation succeeded -/
+def okB {ε α : Type} : Except ε α → Bool
+  | .ok _ => true
+  | .error _ => false
+
+theorem printType_okB (x : Ctx) (td : TypeDef) : okB (printType x td) = okB (body x td) := by
+  unfold printType
+  cases body x td with
+  | error e => rfl
+  | ok o => cases o <;> rfl
+
+theorem body_okB_of_not_scalar (x : Ctx) (td : TypeDef) (h : td.kind ≠ .scalar) : okB (body x td) = true := by
+  unfold body
+  cases hk : td.kind <;> first | exact absurd hk h | rfl
+
+theorem namespaceBody_okB (x : Ctx) : ∀ (l : List TypeDef), okB (namespaceBody x l) = l.all (fun td => okB (printType x td))
+  | [] => rfl
+  | td :: r => by
+    simp only [namespaceBody, List.all_cons]
+    cases hp : printType x td with
+    | error e => rfl
+    | ok ss =>
+      rw [← namespaceBody_okB x r]
+      cases namespaceBody x r <;> rfl
+
+theorem namespaces_okB (c : Cfg) (doc : TsDoc) : ∀ (ts : List Target),
+    okB (namespaces c doc ts) = ts.all (fun t => okB (namespaceBody (Ctx.new c doc t) (typeDefsOf doc)))
+  | [] => rfl
+  | t :: r => by
+    simp only [namespaces, List.all_cons]
+    cases hp : namespaceBody (Ctx.new c doc t) (typeDefsOf doc) with
+    | error e => rfl
+    | ok ss =>
+      rw [← namespaces_okB c doc r]
+      cases namespaces c doc r <;> rfl
+
+theorem schemaFile_okB (c : Cfg) (doc : TsDoc) :
+    okB (schemaFile c doc) = Target.all.all (fun t => (typeDefsOf doc).all fun td => okB (printType (Ctx.new c doc t) td)) := by
+  unfold schemaFile
+  have := namespaces_okB c doc Target.all
+  simp only [namespaceBody_okB] at this
+  rw [← this]
+  cases namespaces c doc Target.all <;> rfl
+
+theorem docJson_intro_not_scalar (M : TsDoc) (h : ValidParsed M) (td' : TypeDef) (hm : td' ∈ typeDefsOf (docJson M))
+    (hi : isIntrospectionName td'.name = true) : td'.kind ≠ .scalar := by
+  rw [typeDefsOf_docJson] at hm
+  obtain ⟨t, ht, rfl⟩ := List.mem_map.mp hm
+  rw [unconvTypeDef_name] at hi
+  rw [unconvTypeDef_kind]
+  rcases jsonSide_mem_cases M t ht with h1 | h1 | h1
+  · rw [user_nonintro M h t h1] at hi; cases hi
+  · rw [builtinScalarDefs_nonintro t h1] at hi; cases hi
+  · have := intro_not_scalar t h1
+    cases hk : t.kind <;> simp_all [unconvKind]
+
+/-- the schema declaration file is produced on the SDL route iff it is produced on the JSON route -/
+theorem schemaFile_ok_routes {c : Cfg} {M : TsDoc} (h : DeclsOk c M) :
+    okB (schemaFile c (docSdl M)) = okB (schemaFile c (docJson M)) := by
+  rw [schemaFile_okB, schemaFile_okB]
+  apply List.all_congr rfl
+  intro t
+  rw [Bool.eq_iff_iff, List.all_eq_true, List.all_eq_true]
+  constructor
+  · intro hS td' hm
+    by_cases hi : isIntrospectionName td'.name = false
+    · obtain ⟨td, htd, rfl⟩ := twin_surj M td' hm hi
+      rw [← printType_routes h t td]
+      exact hS td htd
+    · rw [printType_okB]
+      exact body_okB_of_not_scalar _ _ (docJson_intro_not_scalar M h.valid td' hm (by simpa using hi))
+  · intro hJ td hm
+    rw [printType_routes h t td]
+    exact hJ _ (twin_mem M h.valid.resolved.typeNames h.notBuiltin (user_nonintro M h.valid) td hm)
 
 end NitroVerif.Bridge
